@@ -68,6 +68,8 @@ enum Shape {
 }
 
 struct System {
+    /// parameters n_core..n appear in the parameter map but in no equation
+    n_core: usize,
     n: usize,
     fix_mode: FixMode,
     fixed: Vec<bool>,
@@ -124,6 +126,7 @@ impl System {
     fn to_json(&self) -> Value {
         json!({
             "n": self.n,
+            "parameters_used_by_no_equation": self.n - self.n_core,
             "free": self.n_free(),
             "equations": self.rows.len(),
             "fix_mode": format!("{:?}", self.fix_mode),
@@ -378,7 +381,22 @@ fn generate(case: u64, rng: &mut Rng) -> System {
         Shape::CtxChain,
         Shape::CtxBalanced,
     ]);
+    // idle parameters: present in the parameter map, used by no equation
+    // (the key set must still be exactly the free ones, and an exact start
+    // must come back unchanged)
+    let n_core = n;
+    let mut n = n;
+    if rng.chance(0.15) {
+        for _ in 0..1 + rng.below(3) {
+            fixed.push(rng.chance(0.3));
+            let v = if exact { rng.range(-32, 32) as f32 / 8.0 } else { rng.uniform(-4.0, 4.0) as f32 };
+            value.push(v);
+            start.push(if exact { v } else { rng.uniform(-4.0, 4.0) as f32 });
+            n += 1;
+        }
+    }
     System {
+        n_core,
         n,
         fix_mode,
         fixed,
@@ -922,6 +940,10 @@ impl Prop for C19 {
                 _ => "cond_30_to_100",
             });
         }
+        if sys.n > sys.n_core {
+            st.inc("systems_with_idle_parameters");
+            st.add("idle_free_parameters", (sys.n_core..sys.n).filter(|&i| !sys.fixed[i]).count() as u64);
+        }
         st.distinct(sys.hash());
 
         // variables (random identities; referred to by creation index)
@@ -959,7 +981,9 @@ impl Prop for C19 {
                 st.inc("backend_comparisons");
                 let mut worst: Option<(usize, f64)> = None;
                 let mut identical = true;
-                for i in 0..n {
+                // (idle free parameters are not determined by the system:
+                // not compared)
+                for i in 0..sys.n_core {
                     if sys.fixed[i] {
                         continue;
                     }
